@@ -160,6 +160,26 @@ func decorObs(d decoration.Decoration) M {
 	return M{"boxless": boxless, "empty": b2i(d == decoration.EmptyDecoration), "g": g}
 }
 
+// decorOfWrapper reads the decoration a text wrapper currently holds (an
+// unexported field, read through reflection; reading is permitted).
+func decorOfWrapper(rt interface{}) M {
+	tt, ok := rt.(*texttable.TextTable)
+	if !ok {
+		return nil
+	}
+	dv := reflect.ValueOf(tt).Elem().FieldByName("decor")
+	g := M{}
+	all := ""
+	for _, f := range renderFields {
+		g[f] = dv.FieldByName(f).String()
+	}
+	for _, f := range decorFields {
+		all += dv.FieldByName(f).String()
+	}
+	boxless := b2i(dv.FieldByName("isBoxless").Bool())
+	return M{"boxless": boxless, "empty": b2i(all == "" && boxless == 0), "g": g}
+}
+
 func allEmpty(g M) bool {
 	for _, v := range g {
 		if v.(string) != "" {
@@ -191,6 +211,10 @@ func (w *world) execRender(op M) bool {
 		}
 		rt := wrapKind(opStr(op, "kind"), opStrDef(op, "style", ""), over)
 		w.wrappers = append(w.wrappers, &wrapper{kind: kindOf(rt), rt: rt, over: core, decor: "default"})
+		op["rkind"] = kindOf(rt)
+		if d := decorOfWrapper(rt); d != nil {
+			op["dec"] = d
+		}
 	case "decor":
 		wr := w.wrapperOf(opInt(op, "w"))
 		tt, ok := wr.rt.(*texttable.TextTable)
@@ -200,11 +224,12 @@ func (w *world) execRender(op M) bool {
 		if _, ok := op["custom"]; ok {
 			d := customDecoration(opMap(op, "custom"))
 			tt.SetDecoration(d)
-			w.lastRes = M{"dec": decorObs(d)}
+			op["dec"] = decorObs(d)
 		} else {
 			name := opStr(op, "name")
 			_, err := tt.SetDecorationNamed(name)
-			w.lastRes = M{"err": b2i(err != nil), "dec": decorObs(decoration.Named(name))}
+			op["dec"] = decorObs(decoration.Named(name))
+			w.lastRes = M{"err": b2i(err != nil)}
 		}
 	case "htmlopts":
 		wr := w.wrapperOf(opInt(op, "w"))
@@ -240,6 +265,7 @@ func (w *world) execRender(op M) bool {
 // wrapper object of the scenario, through a sub-package's package-level
 // function on a table, or through the auto package with a style string.
 type renderTarget struct {
+	probe    interface{}
 	kind     string
 	render   func() (string, error)
 	renderTo func(io.Writer) error
@@ -259,13 +285,14 @@ func (w *world) target(op M) renderTarget {
 	}
 	if _, ok := op["auto"]; ok {
 		style := opStr(op, "auto")
-		return renderTarget{kind: kindOf(auto.Wrap(tabular.New(), style)),
+		probe := auto.Wrap(tabular.New(), style)
+		return renderTarget{kind: kindOf(probe), probe: probe,
 			render:   func() (string, error) { return auto.Render(t, style) },
 			renderTo: func(wr io.Writer) error { return auto.RenderTo(t, wr, style) }}
 	}
 	switch pkg := opStr(op, "pkg"); pkg {
 	case "text":
-		return renderTarget{kind: pkg, render: func() (string, error) { return texttable.Render(t) },
+		return renderTarget{kind: pkg, probe: texttable.Wrap(tabular.New()), render: func() (string, error) { return texttable.Render(t) },
 			renderTo: func(wr io.Writer) error { return texttable.RenderTo(t, wr) }}
 	case "csv":
 		return renderTarget{kind: pkg, render: func() (string, error) { return csv.Render(t) },
@@ -317,6 +344,15 @@ func callRender(tg renderTarget, entry string) (status, text string) {
 
 func (w *world) doRender(op M) M {
 	tg := w.target(op)
+	if tg.wr == nil {
+		// package-level and auto renders: format and decoration of a probe wrapper
+		op["rkind"] = tg.kind
+		if tg.probe != nil {
+			if d := decorOfWrapper(tg.probe); d != nil {
+				op["dec"] = d
+			}
+		}
+	}
 	if tg.wr != nil && tg.wr.gen != nil {
 		tg.wr.gen.calls = nil
 	}
@@ -330,6 +366,11 @@ func (w *world) doRender(op M) M {
 	if status == "error" && entry == "RenderTo" {
 		// what RenderTo wrote before failing is not constrained here (C15 looks at it)
 		return res
+	}
+	if tg.wr != nil {
+		if d := decorOfWrapper(tg.wr.rt); d != nil {
+			res["dec"] = d
+		}
 	}
 	if status == "ok" {
 		switch tg.kind {
